@@ -65,8 +65,9 @@ func smartDateParseWrapper(format string, tz *time.Location, dateStage KeyBuilde
 		}), nil
 
 	case "", "cache": // Empty format will auto-detect on first successful entry
-		var atomicFormat atomic.Value
+		var atomicFormat, staticFormat atomic.Value
 		atomicFormat.Store("")
+		staticFormat.Store("")
 
 		// What the date expression yields when every lookup is empty, which is what static analysis of the
 		// expression evaluates it with (eg. "2020-01-" for "2020-01-{0}"): its format is detected like any
@@ -79,7 +80,16 @@ func smartDateParseWrapper(format string, tz *time.Location, dateStage KeyBuilde
 				return ErrorParsing
 			}
 
-			liveFormat := atomicFormat.Load().(string)
+			// Static analysis (the optimizer) evaluates the stage as well, possibly through a sub-context with
+			// partly constant values, eg. the "2020-01-" of {ts "2020-01-{0}"} where ts is a user-defined
+			// function {time {0}}. It detects and remembers a format like the evaluations on input do (so what it
+			// folds is what would be computed), but in a memory of its own: it must not decide the format of the input
+			format := &atomicFormat
+			if InStaticAnalysis(context) {
+				format = &staticFormat
+			}
+
+			liveFormat := format.Load().(string)
 			if liveFormat == "" {
 				// This may end up run by a few different threads, but it comes at the benefit
 				// of not needing a mutex
@@ -88,10 +98,8 @@ func smartDateParseWrapper(format string, tz *time.Location, dateStage KeyBuilde
 				if err != nil {
 					return ErrorParsing
 				}
-				// Nor must anything static analysis evaluates the stage with through a sub-context, eg. the
-				// "2020-01-" of {ts "2020-01-{0}"} where ts is a user-defined function {time {0}}
-				if strTime != emptyTime && !InStaticAnalysis(context) {
-					atomicFormat.Store(liveFormat)
+				if strTime != emptyTime {
+					format.Store(liveFormat)
 				}
 			}
 
